@@ -31,9 +31,7 @@ def run(tier):
             i = 'r%s-%x' % (enc, lo)
             lines.append('op=dumpref id=%s enc=%s lo=%d hi=%d' % (i, enc, lo, lo + step))
             meta[i] = (enc, lo)
-    ev, err, rc, bad = core.run_driver_parallel(exe_u, lines, 'ubsan')
-    if rc or bad or len(ev) != len(lines):
-        ck.harness_error('dumpref failed rc=%s bad=%s %s' % (rc, bad, err[-1500:]))
+    ev = U.run_stage(ck, exe_u, lines, 'ubsan', 'dumpref')
     refok = 0
     for e in ev:
         enc, lo = meta[e['id']]
@@ -49,9 +47,7 @@ def run(tier):
     blk = 0x400
     for lo in range(0, 0x110000, blk):
         lines.append('op=sweep11 id=s%x lo=%d hi=%d' % (lo, lo, lo + blk))
-    ev, err, rc, bad = core.run_driver_parallel(exe_u, lines, 'ubsan')
-    if rc or bad or len(ev) != len(lines):
-        ck.harness_error('sweep11 failed rc=%s bad=%s %s' % (rc, bad, err[-3000:]))
+    ev = U.run_stage(ck, exe_u, lines, 'ubsan', 'sweep11')
     checked = calls = 0
     for e in ev:
         checked += e['checked']
@@ -92,9 +88,7 @@ def run(tier):
         preb = pre.encode(U.ENC_PY[t])
         lines.append('op=transcode id=%s src=%s from=%s to=%s path=%s policy=%s pre=%s' % (i, src.hex(), f, t, path, pol, preb.hex()))
         meta[i] = (text, pre, f, t, path, pol, lines[-1])
-    ev, err, rc, bad = core.run_driver_parallel(exe_a, lines, 'asan')
-    if rc or bad or len(ev) != len(lines):
-        ck.harness_error('transcode sequences failed rc=%s bad=%s %s' % (rc, bad, err[-3000:]))
+    ev = U.run_stage(ck, exe_a, lines, 'asan', 'transcode-sequences')
     for e in ev:
         text, pre, f, t, path, pol, line = meta[e['id']]
         want = (pre + text).encode(U.ENC_PY[t])
